@@ -485,3 +485,32 @@ def check_C18(tier, seed):
     res.coverage["distinct_nontrivial"] = res.coverage["traces_validated_against_impl"]
     res.coverage["exhaustive"] = True
     return res.finish()
+
+
+def check_C07(tier, seed):
+    res = Result("C07", tier, seed, "model_checking")
+    res.coverage["rule"] = ("literal families (small grammar strings over -+019.eE; 1..800 digits; every power of ten -400..400; exact midpoints between adjacent doubles and their neighbours; "
+                            "19/20/39-digit integer boundaries of every width; fraction digits at every alignment of the 16-digit reader; zero-padded and huge exponents; overflow/underflow "
+                            "boundaries; shortest representations of random doubles and subnormals) parsed into Value, Number, f64, f32, RawNumber, sonic_number and 10 integer widths "
+                            "(scalar, sequence element, map key); TLC decides grammar, classification, finiteness, integer ranges and exact round-to-nearest-even with base-1000 limb arithmetic")
+    generic_record_validate("C07", res, "nm-record", ["--seed", seed, "--n", 4000 if tier == QUICK else 300000, "--mode", "parse"], "Trace_Numbers", {}, "parse")
+    return res.finish()
+
+
+def check_C08(tier, seed):
+    res = Result("C08", tier, seed, "model_checking")
+    res.coverage["rule"] = ("f64 sampled over every exponent, around powers of two and ten, subnormals and signed zeros; random f32; integers of every width (boundaries and random): "
+                            "to_string -> TLC checks number grammar, that the text denotes exactly x (correct rounding), and the value read back (text route and DOM route) is bit-identical; "
+                            "raw numbers reproduce their literal (C07 trace); thorough tier adds the exhaustive 2^32 f32 parametric replay")
+    generic_record_validate("C08", res, "nm-record", ["--seed", seed, "--n", 6000 if tier == QUICK else 400000, "--mode", "write"], "Trace_Numbers", {}, "write")
+    exe = build_harness()
+    stride = 4099 if tier == QUICK else 1
+    rc, o, err = run_vh(exe, ["f32-sweep", "--stride", stride], timeout=7200)
+    if rc != 0:
+        raise ToolError("f32 sweep failed: " + err[-300:])
+    sw = json.loads(o.strip().splitlines()[-1])
+    res.coverage.setdefault("replay", {})["f32_sweep"] = {"values": sw["values"], "stride": stride}
+    res.coverage["evaluations"] += sw["values"]
+    for b in sw["bad"]:
+        res.add_mismatch({"suite": "f32-sweep", "class": "roundtrip", "bits": b, "why": "f32 with bits %s does not read back bit-identically from its serialisation" % b})
+    return res.finish()
